@@ -174,7 +174,7 @@ func run(c *core.Ctx) {
 		L = 5
 	}
 	c.Set("L", L)
-	c.Rule("every rule set of the scope (conflicting grammars included, as with %expect) x 4-8 input configurations (several inputs, no-eoi, duplicated no-eoi inputs = synthetic lookahead inputs) x rule attributes {all distinct, all equal, one action + alternating node types} x optimizeTables{off,on}, plus the long-rule family (48 grammars, rule length 3..10, strings up to length 11) and the operator family (25 expression grammars x 28 precedence declarations incl. %nonassoc): MinimizeDFA off vs on started at every input index, every token string <= L; non-trivial = compile where minimization actually merged states; states = distinct lock-step configurations (input, trace prefix), transitions = parser steps compared")
+	c.Rule("every rule set of the scope (conflicting grammars included, as with %expect) x 4-8 input configurations (several inputs, no-eoi, duplicated no-eoi inputs = synthetic lookahead inputs) x rule attributes {all distinct, all equal, one action + alternating node types} x optimizeTables{off,on}, plus the wide-alphabet family (33-36 terminals, symbols 30-32 apart), the long-rule family (48 grammars, rule length 3..10, strings up to length 11) and the operator family (25 expression grammars x 28 precedence declarations incl. %nonassoc): MinimizeDFA off vs on started at every input index, every token string <= L; non-trivial = compile where minimization actually merged states; states = distinct lock-step configurations (input, trace prefix), transitions = parser steps compared")
 	var merged, states, transitions int64
 	processX := func(g *gramenum.Gram, L int, prec []precDecl, cfgs [][]gramenum.Input) {
 		for _, inputs := range cfgs {
@@ -250,6 +250,19 @@ func run(c *core.Ctx) {
 	c.Add("long_rule_family_grammars", int64(len(long)))
 	c.Set("long_rule_family_wall_s", int(time.Since(tFam).Seconds()))
 	tFam = time.Now()
+
+	// Family "wide alphabets": the refinement keys of the minimizer are hashed with a multiplier of
+	// 31, so symbol numbers 31 apart are where an aliasing or hashing mistake in the partition
+	// signatures shows: 33-36 terminals, X1: a z | b c | X2; X2: b with c and z = c+30..c+32 apart.
+	wide := wideFamily()
+	core.ParallelFor(len(wide), 16, func(i int) {
+		if c.Expired() {
+			c.Capped("wide-alphabet family not completed (budget)")
+			return
+		}
+		processX(wide[i], 3, nil, configs(wide[i])[:1])
+	})
+	c.Add("wide_alphabet_family_grammars", int64(len(wide)))
 
 	// Family "operators": expression grammars under every precedence declaration over the two
 	// operators (left/right/nonassoc, one or two groups): %nonassoc leaves explicit error entries
@@ -339,6 +352,29 @@ func longFamily() []*gramenum.Gram {
 		out = append(out, &gramenum.Gram{T: 2, N: 1, Rules: []gramenum.Rule{{LHS: 3, RHS: rep(1, n)}, {LHS: 3, RHS: append([]int{2}, rep(1, n-1)...)}}})
 		// X1: a^(n-1) b | a^(n-2) b b
 		out = append(out, &gramenum.Gram{T: 2, N: 1, Rules: []gramenum.Rule{{LHS: 3, RHS: append(rep(1, n-1), 2)}, {LHS: 3, RHS: append(rep(1, n-2), 2, 2)}}})
+	}
+	return out
+}
+
+// wideFamily: see run().
+func wideFamily() []*gramenum.Gram {
+	var out []*gramenum.Gram
+	for _, T := range []int{33, 35, 36} {
+		for cpos := 3; cpos <= 4; cpos++ {
+			for d := 30; d <= 32; d++ {
+				z := cpos + d
+				if z > T {
+					continue
+				}
+				x1, x2 := T+1, T+2
+				out = append(out, &gramenum.Gram{T: T, N: 2, Rules: []gramenum.Rule{
+					{LHS: x1, RHS: []int{1, z}},
+					{LHS: x1, RHS: []int{2, cpos}},
+					{LHS: x1, RHS: []int{x2}},
+					{LHS: x2, RHS: []int{2}},
+				}})
+			}
+		}
 	}
 	return out
 }
